@@ -37,7 +37,7 @@ PUMP_GEN_CFG = "INIT GenInit\nNEXT GenNext\nCHECK_DEADLOCK FALSE\n"
 PUMP_VAL_CFG = "INIT ValInit\nNEXT ValNext\nCHECK_DEADLOCK FALSE\nINVARIANT WorkWithinQuadratic\n"
 
 
-DSL_ENTRIES = ("TransformDSLToProto", "TransformDSLToJSON", "TransformModularDSLToProto", "TransformModuleFilesToModel")
+DSL_ENTRIES = ("TransformDSLToProto", "TransformDSLToJSON", "TransformModularDSLToProto", "TransformModuleFilesToModel", "TransformModuleFilesToModel/samename")
 
 
 def mutation_jobs(tier):
@@ -128,7 +128,7 @@ def run(pid, tier):
         for s in slow[:3]:
             chk.notes.append("slow input %s: %d ms for %d bytes (growth is judged by the pumping families)" % s)
         log("  [%.0fs]" % (time.time() - chk.t0))
-        log("a/d: %d token-mutated documents (TLC, %d states) + %d byte-mutated fixtures through 8 text entry points" % (len(texts), res.distinct, len(aux)))
+        log("a/d: %d token-mutated documents (TLC, %d states) + %d byte-mutated fixtures through 9 text entry points" % (len(texts), res.distinct, len(aux)))
         states, trans = res.distinct, res.generated
 
         # ---- b. degenerate protobuf models
@@ -266,7 +266,7 @@ def run(pid, tier):
                     log("KNOWN-FINDING: property=%s D15: %s" % (pid, f["what"]))
                 else:
                     log("note: listed finding D15 no longer reproduces")
-        chk.cov.update(evaluations=chk.cov.get("text_inputs", 0) * 8 + chk.cov.get("degenerate_models", 0) * 6 + sum(len(m["points"]) for m in measured),
+        chk.cov.update(evaluations=chk.cov.get("text_inputs", 0) * 9 + chk.cov.get("degenerate_models", 0) * 6 + sum(len(m["points"]) for m in measured),
                        distinct_nontrivial=len(set(alltexts.values())) + len(uniq) + len(measured),
                        rule="a: valid token streams of the layout specification with 1 (exhaustive on a block of documents) or 2 (sampled) token edits, rendered by TLC; b: 3 base models x sets of <= %d of 120 "
                             "holes; c: %d separator / lexeme units x grammatical contexts + 6 model families, work measured for doubling n; d (auxiliary, not model-derived): seeded byte mutations "
